@@ -245,6 +245,45 @@ def _single_return(fi):
     return rets[0]
 
 
+def combined_accessor_verdict(p, cls, name):
+    """('ok' | 'fail' | 'undecided', message) for weight_and_logabsdet / weight_inverse_and_logabsdet
+    of `cls`: first component W (resp. W^-1), second component + log|det W| (used by C10 CACHE-MAP)."""
+    ev = LinEval(p, cls)
+    nf = LogdetNF(p, cls, ev)
+    try:
+        W = ev.method_value("weight")
+        if W.single_word() is None:
+            raise Undecided("weight() is not a product of factors")
+        want_m = W if name == "weight_and_logabsdet" else W.inv()
+        got_m = ev.method_value(name, 0)
+        want_l = nf.of_word(W)
+        fi = cls.lookup_method(name)
+        r = _single_return(fi).ret
+        if not (isinstance(r, ast.Tuple) and len(r.elts) == 2):
+            return "fail", "%s must return a pair (matrix, logabsdet)" % name
+        got_l = nf.of_expr(r.elts[1])
+    except Undecided as ex:
+        # the two components the other way round?
+        try:
+            fi = cls.lookup_method(name)
+            r = _single_return(fi).ret
+            if isinstance(r, ast.Tuple) and len(r.elts) == 2:
+                m1 = ev.mat(r.elts[1])
+                l0 = nf.of_expr(r.elts[0])
+                if m1.single_word() is not None and l0:
+                    return "fail", "%s returns (logabsdet, matrix); callers unpack (matrix, logabsdet)" % name
+        except (Undecided, Obligation):
+            pass
+        return "undecided", str(ex)
+    except Obligation as ob:
+        return "fail", ob.msg
+    if got_m != want_m:
+        return "fail", "%s returns the matrix `%s`, expected `%s`" % (name, got_m.show(), want_m.show())
+    if got_l != want_l:
+        return "fail", "%s returns the log-det `%s`, expected `%s`" % (name, _show_keys(got_l), _show_keys(want_l))
+    return "ok", "%s.%s returns (%s, %s)" % (cls.name, name, got_m.show(), _show_keys(got_l))
+
+
 def check_linear_classes(p, base, res, res_ld):
     """Decide every subclass of `base` that defines accessors of its own; returns their number."""
     n_cls = 0
